@@ -60,6 +60,10 @@ func decodeScope(p *Prog) (map[*ssa.Function]bool, *ssa.Function) {
 func runC03(p *Prog, r *Report, tier string) {
 	// AddRecordV2 adopts the element slice it is given: the decoder makes one slice per record
 	checkFreshPerIteration(p, r, "R-ALLOC.elements-fresh", "(*pkg/collector.CollectingProcess).decodeDataSet", func(n string) bool { return strings.HasSuffix(n, ".AddRecordV2") }, 1, "element slice")
+	// imported from C04: the width a field is decoded with comes from the template entry in force, not from any other
+	// per-process state (a cache of placeholder elements keyed without the declared length decodes later sets with a
+	// stale width: wrong field sizes, leftover bytes as extra records)
+	checkDecodeScopedState(p, r, templateStoreFns(p))
 	scope, dp := decodeScope(p)
 	if dp == nil {
 		r.Undecided("R-BOUNDS", "anchor: (*CollectingProcess).decodePacket", "pkg/collector/process.go", "function not found")
